@@ -81,7 +81,7 @@ class Via:
 class World:
     def __init__(self, g, nlisten=1, nback=3, names=None, keep=None, mustrr=None, rcvd=None):
         self.g = g
-        base = 20000 + g.rint(0, 30000)
+        base = 20000 + (g.rint(0, 30000) + PROC_NONCE) % 30000
         self.names = names if names is not None else g.pick([
             "svc.test", "urn:service:sos", "svc.test, urn:service:sos", "alice@svc.test,urn:service:sos",
             "^sip[0-9]+@pbx.test$, svc.test", "tel:112, svc.test", "tel:+15550100, svc.test", "svc.test, a+b@svc.test, tel:+1(555)0100",
@@ -115,6 +115,7 @@ class World:
         for l in self.listeners:
             self.obs += ["%s:%d" % (LISTEN_IP, l.port + 1), "127.0.0.9:%d" % l.port, "127.0.3.2:%d" % l.port]
         self.obs.append("%s:5060" % LISTEN_IP)      # (listeners are doubles: nothing of the proxy is bound there)
+        self.obs += ["%s:%d" % (LISTEN_IP, l.port) for l in self.listeners]
         self.obs += ["127.0.2.%d:5060" % i for i in (1, 2, 3)]
         self.obs = sorted(set(self.obs))
         self.learned = {}        # host -> Listener (generator's own bookkeeping of the property's "learned")
@@ -355,7 +356,23 @@ def gen_request_case(g, tier, focus=None, c17=None):
     c = Case(g, w)
     ops = c.ops
     nmsg = g.rint(1, 4)
-    for mi in range(nmsg):
+
+    def schedule():
+        """message numbers; now and then the SAME message once more (in-dialog requests repeat their route set and
+        their Via text literally): the random choices are replayed, the expectations are recomputed with what the
+        world has learned meanwhile"""
+        import random as _random
+        rep = _random.Random(g.rint(0, 2 ** 30))
+        for k in range(nmsg):
+            st = (g.r.getstate(), g.sp.getstate())
+            yield k
+            if rep.random() < 0.3:
+                g.r.setstate(st[0]); g.sp.setstate(st[1])
+                g.count("req_repeated")
+                yield k
+    occ = -1
+    for mi in schedule():
+        occ += 1
         pi = g.rint(0, len(w.listeners) - 1)
         lst = w.listeners[pi]
         peer_ip = g.pick(["127.0.2.1", "127.0.2.2", "127.0.2.3"])
@@ -408,7 +425,7 @@ def gen_request_case(g, tier, focus=None, c17=None):
                           "voipdest.test", "10.20.7.7", "110.20.7.7", "sip7.pbx.test", "sip.pbx.test", "xsip7.pbx.test", "a.wild.org", "dest.test.org"])
         sr = w.static_route(to_host)
         # ---- Route set ----
-        route_mode = g.pick(["none", "none", "own", "own+next", "next", "own+next+more", "nearmiss+next", "alias+next"])
+        route_mode = g.pick(["none", "none", "own", "own+next", "next", "own+next+more", "nearmiss+next", "alias+next", "own+own+next"])
         own_variants = [sip_uri_text(g, "", lst.addr, lst.port, ";lr"), sip_uri_text(g, "", "proxy.test", lst.port, ";lr")]
         if lst.port == 5060:
             own_variants += [sip_uri_text(g, "", lst.addr, None, ";lr"), sip_uri_text(g, "", "proxy.test", None, ";lr")]
@@ -429,6 +446,12 @@ def gen_request_case(g, tier, focus=None, c17=None):
             routes = [rentry(next_uri)]
         elif route_mode == "own+next+more":
             routes = [rentry(g.pick(own_variants)), rentry(next_uri)] + [rentry("sip:far%d.example.org;lr" % i) for i in range(g.rint(1, 3))]; own_first = True
+        elif route_mode == "own+own+next":
+            # the listener is named twice (a spiral): exactly ONE entry is consumed, the second own entry is the next hop
+            second = g.pick(own_variants)
+            routes = [rentry(own_variants[0]), rentry(second), rentry(next_uri)]; own_first = True
+            m = re.match(r"sip:([^:;]+)(?::(\d+))?", second)
+            nh_host, nh_port, nh_tr = m.group(1), int(m.group(2) or 5060), ""
         elif route_mode == "nearmiss+next":
             misses = [sip_uri_text(g, "", lst.addr, lst.port + 1, ";lr"), sip_uri_text(g, "", "127.0.0.9", lst.port, ";lr"),
                       sip_uri_text(g, "", "hop2.test", lst.port, ";lr")]
@@ -527,7 +550,7 @@ def gen_request_case(g, tier, focus=None, c17=None):
         g.count("req_by_" + str(by))
         g.count("route_mode_" + route_mode)
         if c17:
-            exp.append("spec=C17 %s %s.%d" % (c17[0], c17[1], mi))
+            exp.append("spec=C17 %s %s.%d" % (c17[0], c17[1], occ))
         op = "pipe raw p=%d from=%s peer=%s port=%d tcp=- rx=%d msg=%s" % (pi, lst.tok(), hx(peer_ip), peer_port, 1 if rx else 0, hx(data))
         ops.append(op + "".join(" # " + e for e in exp))
         if g.chance(0.3):
